@@ -687,6 +687,23 @@ pub fn all_strings(alphabet: &[u32], max_len: usize) -> Vec<String> {
 
 /// The relevant alphabet for a pattern: mentioned characters, their case partners, an unrelated
 /// character, and line terminators; capped at `cap` characters (mentioned ones first).
+/// Characters whose UTF-8 encoding contains the byte `b` (as lead byte, or as continuation byte):
+/// they expose code that treats a Latin-1 code point as if it were a byte of the haystack.
+pub fn byte_confusables(b: u32) -> Vec<u32> {
+    let mut v = Vec::new();
+    match b {
+        0xC2..=0xDF => v.push((b - 0xC0) << 6),              // two-byte character with this lead byte
+        0xE1..=0xEC | 0xEE..=0xEF => v.push((b - 0xE0) << 12), // three-byte character with this lead byte
+        0xF1..=0xF3 => v.push((b - 0xF0) << 18),             // four-byte character with this lead byte
+        0x80..=0xBF => {
+            v.push(0x100 + (b - 0x80)); // C4 xx
+            v.push(0x1000 + (b - 0x80)); // E1 80 xx
+        }
+        _ => {}
+    }
+    v
+}
+
 pub fn relevant_alphabet(mentioned: &[u32], cap: usize, with_partners: bool) -> Vec<u32> {
     let mut v: Vec<u32> = Vec::new();
     let mut add = |c: u32, v: &mut Vec<u32>| {
@@ -701,6 +718,16 @@ pub fn relevant_alphabet(mentioned: &[u32], cap: usize, with_partners: bool) -> 
         for &c in mentioned {
             for p in partners(c) {
                 add(p, &mut v);
+            }
+        }
+    }
+    // byte-confusable characters for Latin-1 code points (and their case partners)
+    for &c in mentioned {
+        for p in partners(c) {
+            if (0x80..=0xFF).contains(&p) {
+                for x in byte_confusables(p) {
+                    add(x, &mut v);
+                }
             }
         }
     }
